@@ -2,6 +2,8 @@ package props
 
 import (
 	"fmt"
+	"sort"
+	"strings"
 
 	"mgcheck/core"
 	"mgcheck/ordabs"
@@ -100,6 +102,16 @@ func unionFindLaws(c *core.Ctx, rule string) {
 		if fail(err) {
 			return
 		}
+		// before Z=X is added, nothing has looked X up since Y was bound: X -> Y -> 7 is a genuine two-step chain
+		rs2, err := rows(w2)
+		if fail(err) {
+			return
+		}
+		for _, name := range []string{"X", "Y"} {
+			if rs2[name] != "7" && bad == "" {
+				bad = fmt.Sprintf("AsConstSubstList after X=Y, Y=7 gives %v: %s must be bound to 7 (a variable bound only through an alias chain is missing from the row handed to transforms)", rs2, name)
+			}
+		}
 		rs, err := rows(w3)
 		if fail(err) {
 			return
@@ -129,7 +141,72 @@ func unionFindLaws(c *core.Ctx, rule string) {
 	if gv, _ := value(base, "B"); gv != "B" && bad == "" {
 		bad = "B is bound in the base after extending a copy of it"
 	}
+	// a base that holds an uncompressed chain X -> Y -> 7: extending it must not even compress paths in the base
+	// (sibling solutions, possibly on other goroutines, read it at the same time)
+	if bad == "" {
+		c1, _, _ := unify(empty(), list(v("X")), list(v("Y")))
+		chain, _, err := unify(c1, list(v("Y")), list(k(7)))
+		if fail(err) {
+			return
+		}
+		snap := func(uf *ordabs.Rec) string {
+			m := uf.Fields["parent"].(*ordabs.Map)
+			var parts []string
+			for ks, val := range m.M {
+				parts = append(parts, ks+"=>"+ordabs.KeyString(val))
+			}
+			sort.Strings(parts)
+			return strings.Join(parts, "; ")
+		}
+		before := snap(chain)
+		_, _, err = unify(chain, list(v("X"), v("W")), list(k(7), v("X")))
+		if fail(err) {
+			return
+		}
+		if after := snap(chain); after != before {
+			bad = fmt.Sprintf("UnifyTermsExtend wrote into its base substitution: {%s} became {%s} (path compression must happen in the copy)", before, after)
+		}
+	}
 	c.Check(bad == "", rule, "unionfind:copy-before-write", ext.Decl.Pos(), "the base substitution is unchanged after UnifyTermsExtend", bad)
+
+	// 2b. structured values are compared by structure, not by identity of their representation
+	bad = ""
+	tk := newTypeKit(c, rule)
+	if tk.ok {
+		mkPair := func(a, b int64) *ordabs.Rec { return tk.pair(tk.num(a), tk.num(b)) }
+		mkList := func(xs ...int64) *ordabs.Rec {
+			var rs []*ordabs.Rec
+			for _, x := range xs {
+				rs = append(rs, tk.num(x))
+			}
+			return tk.list(rs...)
+		}
+		for _, tcase := range []struct {
+			name       string
+			first, eq  *ordabs.Rec
+			other      *ordabs.Rec
+		}{
+			{"pair", mkPair(1, 2), mkPair(1, 2), mkPair(1, 3)},
+			{"list", mkList(1, 2), mkList(1, 2), mkList(2, 1)},
+		} {
+			u1, ok1, err := unify(empty(), list(v("X")), list(tcase.first))
+			if fail(err) {
+				return
+			}
+			_, okSame, err := unify(u1, list(v("X")), list(tcase.eq))
+			if fail(err) {
+				return
+			}
+			_, okOther, err := unify(u1, list(v("X")), list(tcase.other))
+			if fail(err) {
+				return
+			}
+			if (!ok1 || !okSame || okOther) && bad == "" {
+				bad = fmt.Sprintf("X bound to a %s: unifying X with an equal %s built separately succeeds=%v (want true), with a different one succeeds=%v (want false): structured constants must be compared with Equals, not ==", tcase.name, tcase.name, okSame, okOther)
+			}
+		}
+		c.Check(bad == "", rule, "unionfind:structured-values", ext.Decl.Pos(), "a variable bound to a pair or list unifies with an equal value built separately and not with a different one", bad)
+	}
 
 	// 3. conflicts and wildcards
 	bad = ""
